@@ -48,7 +48,7 @@ Ltac prE :=
 Lemma ss_step_main s pick s' : Rss lims s -> exec P s (LStep 0 pick) = Some s' -> Rss lims s'.
 Proof.
   intros (p0 & st0 & r0 & c0 & l0 & cu0 & om & Ht0 & HOM & Hn & Hpa & Hf & Hok0 & Hreg & Hc0 & Hm1 & Homlt &
-          HownO & Hal & Hq & HG & Hran & Hsub & Hch & HPR) E.
+          HownO & Hal & Hq & HW & HG & Hran & Hsub & Hch & HPR) E.
   unfold exec in E. rewrite Hf, Hn in E. cbn [Nat.ltb Nat.leb Nat.add negb] in E.
   rewrite Ht0 in E. cbn [stat] in E.
   unfold s0_ok in Hok0; destruct st0; try discriminate Hok0;
@@ -75,6 +75,7 @@ Proof.
   try (match type of E with context [que s 3] => destruct (que s 3) as [|cq rq] eqn:EQ; [try discriminate E; try congruence|] end);
   try (match type of E with context [match que s 2 with _ => _ end] => destruct (que s 2) as [|cq2 rq2] eqn:EQ2 end);
   try (match type of E with context [if ?c then _ else _] => destruct c eqn:EBR end);
+  try (match type of E with context [if ?c then _ else _] => destruct c eqn:EBR2 end);
   try discriminate E.
   all: inversion E; subst s'; clear E.
   all: unfold Rss; do 7 eexists; do 3 (cbn; unfold upd; cbn; rewrite ?Ht0); cbn.
@@ -88,6 +89,19 @@ Proof.
   all: (split; [ intros rr Hrr; destruct rr as [|[|[|rr]]]; try lia; cbn; apply HownO; lia |]).
   all: (split; [ exact Hal |]).
   all: (split; [ unfold sqfacts; cbn; rewrite ?EQ, ?EQ2; try (rewrite Hq1 by fail); try (rewrite Hq3 by fail); (split; [|split]); intros XX; try discriminate XX; try assumption; try reflexivity; try congruence |]).
+  all: (split; [ unfold swk, safe0; cbn; rewrite ?EQ, ?EQ2; try (rewrite Hq1 by fail);
+                 first [ (intros XX; exfalso; apply XX; reflexivity)
+                       | (intros _; right; left; reflexivity)
+                       | (intros _; left; discriminate)
+                       | (intros XX; unfold swk, safe0 in HW; cbn in HW; rewrite ?EQ, ?EQ2 in HW;
+                          destruct (HW XX) as [HWv|[HWs|[iw [HWi [HWst HWpc]]]]];
+                          [ left; exact HWv
+                          | discriminate HWs
+                          | right; right; exists iw; split; [exact HWi|]; unfold spend; cbn; unfold upd; cbn;
+                            try (match goal with Hc : thr _ (S ?k) = _ |- context [Nat.eqb iw ?k] =>
+                                   let EW := fresh "EW" in destruct (Nat.eqb iw k) eqn:EW;
+                                   [apply Nat.eqb_eq in EW; subst iw; cbn in HWst; rewrite Hc in HWst; discriminate HWst|] end);
+                            split; [exact HWst|exact HWpc] ]) ] |]).
   all: (split; [ cbn; rewrite ?map_app; cbn; rewrite ?EQ, ?EQ2 in *; rewrite HG; cbn; try (rewrite Hq1 by fail); try (rewrite Hq3 by fail); cbn; rewrite ?app_nil_r, <- ?app_assoc; reflexivity |]).
   all: (split; [ first [exact Hran | (intros cc tt Hin; apply in_app_or in Hin; destruct Hin as [Hin|[Hin|[]]]; [eapply Hran; exact Hin | inversion Hin; reflexivity])] |]).
   all: (split; [ first [exact Hsub | (intros cc Hin; apply in_app_or in Hin; destruct Hin as [Hin|[Hin|[]]]; [apply Hsub; exact Hin | subst cc; cbn; lia])] |]).
